@@ -311,10 +311,14 @@ class Server:
         uid = id(fut)
 
         with self._pipeline_notfull:
-            if len(pipeline) >= self._capacity:
+            while len(pipeline) >= self._capacity:
+                # Re-check after each wake-up: another request may have taken
+                # the freed slot before this one re-acquired the lock.
                 if backpressure:
                     raise ServerBacklogFull(len(pipeline))
-                if not self._pipeline_notfull.wait(timeout * 0.99):
+                if not self._pipeline_notfull.wait(
+                    t0 + timeout * 0.99 - perf_counter()
+                ):
                     raise ServerBacklogFull(len(pipeline), perf_counter() - t0)
 
             pipeline[uid] = fut
@@ -549,14 +553,17 @@ class AsyncServer:
         uid = id(fut)
 
         async with self._pipeline_notfull:
-            if len(pipeline) >= self._capacity:
+            while len(pipeline) >= self._capacity:
+                # Re-check after each wake-up: another request may have taken
+                # the freed slot before this one re-acquired the lock.
                 if backpressure:
                     raise ServerBacklogFull(len(pipeline))
                     # If this is behind a HTTP service, should return
                     # code 503 (Service Unavailable) to client.
                 try:
                     await asyncio.wait_for(
-                        self._pipeline_notfull.wait(), timeout * 0.99
+                        self._pipeline_notfull.wait(),
+                        t0 + timeout * 0.99 - perf_counter(),
                     )
                 except (
                     asyncio.TimeoutError,
